@@ -62,7 +62,7 @@ def run(run):
                 'default and with custom label callbacks, twice on the same lattice; DOT body parsed by an independent statement '
                 'parser and compared as a multiset of node / label / edge items with the model\'s drawing')
     d = run.driver
-    for tab, pc in lat.contexts(run, exh_quick=8, rand_quick=200, wide_quick=10, exh_thorough=11, nmax=9, mmax=9):
+    for tab, pc in lat.contexts(run, exh_quick=8, rand_quick=200, wide_quick=10, exh_thorough=13, nmax=9, mmax=9):
         if min(pc.n, pc.m) > 10:
             continue
         extra = {'objects': pc.objects, 'properties': pc.properties, 'bools': pc.bools}
